@@ -171,8 +171,14 @@ fn resolve_type(
     }
 
     // Unresolved type is in import path?
-    if let Some(import_path) = imports.iter().find(|import_path| {
-        &type_.name == *import_path || import_path.ends_with(&format!(".{}", type_.name))
+    // Note: prefer the exact match, otherwise take the smallest matching path, so that the
+    // result does not depend on the iteration order of the set
+    let suffix = format!(".{}", type_.name);
+    if let Some(import_path) = imports.get(&type_.name).or_else(|| {
+        imports
+            .iter()
+            .filter(|import_path| import_path.ends_with(&suffix))
+            .min()
     }) {
         if let Some(item_kind) = defined.get(import_path) {
             // Imported type is defined => set resolved item
